@@ -669,6 +669,12 @@ func (lazy *SexpLazyArg) Force(env *Zlisp) (Sexp, error) {
 		return SexpNull, err
 	}
 	res, err := env.Run()
+	if err == nil {
+		// a dot-symbol (h.x) evaluates to itself: read the location
+		// it names while the scopes of the call are still in place.
+		env.curfunc = sfun
+		res, err = env.RValue(res)
+	}
 	if err != nil {
 		env.restoreControlState(callState)
 		return SexpNull, err
